@@ -927,6 +927,16 @@ def _logical_or(a, b):
     return _disj([a, b])
 
 
+_sum_sym = symaware('sum', alg.jnp_sum)
+
+
+def _jnp_sum_model(x, *a, **k):
+    """the sum of a boolean comparison counts its true entries: canonical form count_nonzero(pred)"""
+    if isinstance(x, Pred) and not a and not {kk for kk, v in k.items() if v is not None}:
+        return term('count_nonzero', x)
+    return _sum_sym(x, *a, **k)
+
+
 def _isnan(x):
     return term('isnan', x)
 
@@ -1239,7 +1249,7 @@ def make_world_externals(world_ref):
              array=_jnp_array, asarray=_jnp_array,
              stack=symaware('stack', alg.jnp_stack), concatenate=symaware('concatenate', alg.jnp_concatenate),
              hstack=symaware('hstack', alg.jnp_hstack),
-             sum=symaware('sum', alg.jnp_sum), mean=symaware('mean', alg.jnp_mean),
+             sum=_jnp_sum_model, mean=symaware('mean', alg.jnp_mean),
              trace=symaware('trace', alg.jnp_trace), abs=symaware('abs', alg.jnp_abs), log=symaware('log', alg.jnp_log),
              squeeze=symaware('squeeze', alg.jnp_squeeze), expand_dims=symaware('expand_dims', alg.jnp_expand_dims),
              atleast_1d=symaware('atleast_1d', alg.jnp_atleast_1d),
